@@ -8,7 +8,11 @@ import random
 import sim
 
 ARN = "arn:aws:states:local:0123456789:stateMachine:camp"
-INPUT = {"a": 1, "b": {"c": [1, 2, 3]}, "items": [1, 2, 3], "s": "x", "flag": True, "n": 5, "empty": []}
+INPUT = {"a": 1, "b": {"c": [1, 2, 3]}, "items": [1, 2, 3], "s": "x", "flag": True, "n": 5, "empty": [],
+         # items that look like the input itself, so that the states of an iteration (a nested Map, a Choice, paths) find what they look for
+         "nested": [{"a": 1, "b": {"c": [7]}, "items": [1, 2], "s": "x", "flag": False, "n": 5, "empty": []},
+                    {"a": 2, "b": {"c": [8, 9]}, "items": [3], "s": "y", "flag": True, "n": 0, "empty": []},
+                    {"a": 3, "b": {"c": []}, "items": [], "s": "x", "flag": True, "n": 5, "empty": []}]}
 
 
 class Gen:
@@ -113,7 +117,7 @@ class Gen:
                 self.paths(st)
                 self.retry_catch(st, later + [end_fail])
             elif kind == "Map":
-                st["ItemsPath"] = r.choice(["$.items", "$.b.c", "$.nope2" if r.random() < 0.1 else "$.items", "$.empty"])
+                st["ItemsPath"] = r.choice(["$.items", "$.b.c", "$.nope2" if r.random() < 0.1 else "$.items", "$.empty", "$.nested", "$.nested"])
                 proc = self.machine(depth + 1)
                 if r.random() < 0.5:
                     st["Iterator"] = proc
